@@ -266,7 +266,7 @@ class TruncArr(sx.SArr):
         numpy.ndarray.__setitem__(self, k, v)
 
 
-class _AggNP:
+class _AggNP(sx.Conversions):
     def __getattr__(self, k):
         return getattr(numpy, k)
 
